@@ -26,7 +26,9 @@ def _popped_field(t):
     while t[0] == 'field':
         path.append(t[2])
         t = t[1]
-    if t[0] == 'unwrap' and t[1][0] == 'call' and t[1][1].endswith('BinaryHeap::pop'):
+    if t[0] == 'unwrap':
+        t = t[1]
+    if t[0] == 'call' and t[1].endswith('BinaryHeap::pop'):
         return tuple(reversed(path))
     return None
 
@@ -89,34 +91,27 @@ def r2(ctx):
     if len(pushes) < 2:
         raise AnchorMissing('expected the two re-push sites (previous / next neighbour) inside the heap loop, found %d'
                             % len(pushes))
+    from analysis.sym import slice_calls
     n = 0
     for p in pushes:
-        entry = sym(body, p.args[1])
-        if entry[0] != 'agg' or entry[1] != 'tuple':
-            ctx.fail(body, 'push-not-tuple', 'pushed heap entry is not a tuple literal: %s' % sh(entry), p.span)
-            continue
-        for i, comp in enumerate(entry[3]):
-            c = peel(comp)
-            if c[0] != 'index':
-                continue
-            base = c[1]
-            # where is it read: the Index::index call block
-            reads = [t for t in body.calls(r'ops::Index>::index$') if t.bb in loop.blocks and
-                     nosite(sym(body, t.args[0])) == nosite(base) and
-                     nosite(sym(body, t.args[1])) == nosite(c[2])]
+        # the reads of the mutable id vector that actually flow into the pushed entry (not other reads of the same element)
+        reads = [t for t in slice_calls(body, p.args[1], r'ops::Index>::index$') if t.bb in loop.blocks and
+                 'Vec<std::option::Option<u32>>' in body.local_ty(t.args[0].place.local)]
+        for r in reads:
+            base = sym(body, r.args[0])
             writes = _token_writes(body, loop, base)
             if not writes:
-                continue  # not a mutable state vector
+                continue
             n += 1
-            for r in reads:
-                rr = cfg.reach(body, r.bb, removed_blocks=[loop.header]) & loop.blocks
-                late = [w for w in writes if w.bb in rr and w.bb != r.bb]
-                ctx.require(not late, body, 'stale-stamp|component%d' % i,
-                            'stamp %s (entry component %d, line %d) is read after every write to %s in the iteration'
-                            % (sh(c), i, r.span['line'], sh(base)),
-                            'stamp %s recorded in the pushed entry (component %d, line %d) is read BEFORE the state '
-                            'update at line %d: the entry is stale when popped, the merge is never applied'
-                            % (sh(c), i, r.span['line'], late[0].span['line'] if late else 0), r.span)
+            rr = cfg.reach(body, r.bb, removed_blocks=[loop.header]) & loop.blocks
+            late = [w for w in writes if w.bb in rr and w.bb != r.bb]
+            c = ('index', base, sym(body, r.args[1]))
+            ctx.require(not late, body, 'stale-stamp|line-order',
+                        'stamp %s (read at line %d for the entry pushed at line %d) is read after every write to %s in the iteration'
+                        % (sh(c), r.span['line'], p.span['line'], sh(base)),
+                        'stamp %s recorded in the entry pushed at line %d is read (line %d) BEFORE the state '
+                        'update at line %d: the entry is stale when popped, the merge is never applied'
+                        % (sh(c), p.span['line'], r.span['line'], late[0].span['line'] if late else 0), r.span)
     if n == 0:
         raise AnchorMissing('no pushed entry component reads the mutable token-id vector')
 
@@ -205,17 +200,29 @@ def r4(ctx):
              src[2][1][2][1][0] == 'const' and src[2][1][2][1][2] == 1 and
              src[2][1][2][0][0] == 'call' and src[2][1][2][0][1].endswith('Iterator::enumerate'))
     same_src = okzip and nosite(src[2][0][2][0]) == nosite(src[2][1][2][0][2][0])
-    ctx.require(bool(okzip and same_src), body, 'initial-pairs',
-                'initial candidates are adjacent pairs: zip(enumerate(bytes), enumerate(bytes).skip(1))',
-                'initial candidate pairs are not zip(enumerate(x), enumerate(x).skip(1)): %s' % sh(src), heap_init.span)
+    # equivalent enumeration of the adjacent pairs: x.windows(2).enumerate() -> (i, [x[i], x[i+1]])
+    from analysis.sym import core as _core
+    cs = _core(src)
+    okwin = cs[0] == 'call' and cs[1].endswith('Iterator::enumerate') and cs[2][0][0] == 'call' and cs[2][0][1].endswith('slice::windows') and \
+        cs[2][0][2][1][0] == 'const' and cs[2][0][2][1][2] == 2
+    if src[0] == 'call' and src[1].endswith('Iterator::zip') or okwin:
+        ctx.require(bool(okzip and same_src) or okwin, body, 'initial-pairs',
+                    'initial candidates are the adjacent pairs: zip(enumerate(bytes), enumerate(bytes).skip(1)) / windows(2).enumerate()',
+                    'initial candidate pairs are not zip(enumerate(x), enumerate(x).skip(1)): %s' % sh(src), heap_init.span)
+    else:
+        raise AnchorMissing('enumeration of the initial candidate pairs not recognised: %s' % sh(src)[:120])
     clo = closure_of(ctx, chain[2][1])
     somes = [(v, b) for v, b in ret_values(clo) if v[0] == 'agg' and v[2].endswith('Option::Some')]
     if not somes:
         raise AnchorMissing('initial-candidate closure returns no Some(..)')
     for v, b in somes:
         e = v[3][0]
-        _check_entry(ctx, clo, e, clo.blocks[b].term.span, 'initial candidate', left=('field', ('field', ('arg', 2, ''), 0), 0),
-                     right=('field', ('field', ('arg', 2, ''), 1), 0))
+        if okwin:
+            _check_entry(ctx, clo, e, clo.blocks[b].term.span, 'initial candidate', left=('field', ('arg', 2, ''), 0),
+                         right=('bin', 'Add', ('field', ('arg', 2, ''), 0), ('const', '1_usize', 1)))
+        else:
+            _check_entry(ctx, clo, e, clo.blocks[b].term.span, 'initial candidate', left=('field', ('field', ('arg', 2, ''), 0), 0),
+                         right=('field', ('field', ('arg', 2, ''), 1), 0))
     # re-pushes
     for p in [t for t in body.calls(r'BinaryHeap::push$') if t.bb in loop.blocks]:
         e = sym(body, p.args[1])
@@ -225,7 +232,7 @@ def r4(ctx):
 def _is_lookup(t):
     """tree is (payload of) a lookup in the merge table: HashMap::get(.., concat(..))"""
     for s in walk(t):
-        if s[0] == 'call' and s[1].endswith('HashMap::get'):
+        if isinstance(s, tuple) and s and s[0] == 'call' and s[1].endswith('HashMap::get'):
             return True
     return False
 
@@ -252,7 +259,8 @@ def _check_entry(ctx, body, e, span, what, left=None, right=None):
                     '%s: Reverse(index of left token), index of right token' % what,
                     '%s: entry indices are (%s, %s), expected (left, right) of the zipped pair' % (what, sh(l), sh(r)), span)
         # merge id: payload of the table lookup
-        ctx.require(_is_lookup(f0[3][0]), body, 'entry-id|initial', '%s: Reverse(merge id) comes from the merge-table lookup' % what,
+        from analysis.alts import expand as _expand
+        ctx.require(_is_lookup(_expand(ctx.facts, body, nosite(f0[3][0]))), body, 'entry-id|initial', '%s: Reverse(merge id) comes from the merge-table lookup' % what,
                     '%s: component 0 is %s, not the merge-table lookup' % (what, sh(f0[3][0])), span)
 
 
